@@ -2,6 +2,7 @@ import StamModel.Driver.Rel
 import StamModel.Driver.Off
 import StamModel.Driver.U8
 import StamModel.Driver.Find
+import StamModel.Driver.Txt
 /-
   Line-protocol driver: one request per line on stdin, one answer per line on stdout.
   Built as the `stamdriver` executable (core Lean only).
@@ -14,6 +15,7 @@ def step (line : String) : String :=
   | "off" :: args => off args
   | "u8" :: args => u8 args
   | "find" :: args => findCmd args
+  | "txt" :: args => txt args
   | ["reset"] => "ok"
   | _ => "bad-op"
 
